@@ -129,6 +129,8 @@ class CallMixin(object):
                 return self.call_contract(ct, args, kwargs, st)
             if is_ref(recv.sort):
                 ct = self.reg.method(recv.sort.cls, fv.name, args)
+                if ct is None and self.reg.class_info(recv.sort.cls, 'dictfield') and fv.name in ('items', 'keys', 'values', 'get'):
+                    return self.call_lib_method(self.dict_of(st, recv), fv.name, args, kwargs, st, None)
                 if ct is None:
                     raise OutsideSubset('call to %s.%s: no contract' % (recv.sort.cls, fv.name))
                 if not self.spec_mode:
